@@ -568,6 +568,8 @@ func (s *Server) Signers() ([]ssh.Signer, error) {
 
 // Extension processes a custom extension request.
 func (s *Server) Extension(extensionType string, contents []byte) ([]byte, error) {
+	s.mu.Lock()
+	defer s.mu.Unlock()
 	return s.agent.Extension(extensionType, contents)
 }
 
